@@ -1,6 +1,7 @@
 package fstxn
 
 import (
+	"github.com/mit-pdos/go-journal/addr"
 	"github.com/mit-pdos/go-journal/alloc"
 	"github.com/mit-pdos/go-journal/common"
 	"github.com/mit-pdos/go-journal/lockmap"
@@ -20,19 +21,21 @@ type FsState struct {
 	Ialloc  *alloc.Alloc
 }
 
-func readBitmap(super *super.FsSuper, start common.Bnum, len uint64) []byte {
+// Read through the log: transactions recovered by MkLog may not have
+// been installed yet.
+func readBitmap(log *obj.Log, start common.Bnum, len uint64) []byte {
 	var bitmap []byte
 	for i := uint64(0); i < len; i++ {
-		blk := super.Disk.Read(uint64(start) + i)
-		bitmap = append(bitmap, blk...)
+		buf := log.Load(addr.MkAddr(start+i, 0), common.NBITBLOCK)
+		bitmap = append(bitmap, buf.Data...)
 	}
 	return bitmap
 }
 
 func MkFsState(super *super.FsSuper, log *obj.Log) *FsState {
-	balloc := alloc.MkAlloc(readBitmap(super, super.BitmapBlockStart(),
+	balloc := alloc.MkAlloc(readBitmap(log, super.BitmapBlockStart(),
 		super.NBlockBitmap))
-	ialloc := alloc.MkAlloc(readBitmap(super, super.BitmapInodeStart(),
+	ialloc := alloc.MkAlloc(readBitmap(log, super.BitmapInodeStart(),
 		super.NInodeBitmap))
 	icache := cache.MkCache(ICACHESZ)
 	st := &FsState{
